@@ -113,7 +113,7 @@ def term_methods(program) -> Dict[str, Dict]:
 _FN_TOKEN = None
 
 
-def _template_vocab_problems(fn, dialect, vocab):
+def _template_vocab_problems(fn, dialect, vocab, registered_override=None):
     """function names and CAST types in the literal text of a formatter's templates must belong to the dialect"""
     import re
     out = []
@@ -145,6 +145,8 @@ def _template_vocab_problems(fn, dialect, vocab):
                 i += 1
             nargs = nargs + 1 if seen_any else 0
             why = facts.SQL_FUNCTION_FORM_CAVEATS.get((dialect.name, name.upper(), nargs))
+            if why is not None and nargs == 1 and registered_override is not None and name.lower() in registered_override:
+                why = None  # a registered user function of that name and arity replaces the built-in (what it is registered as is decided separately)
             if why is not None and (dialect.name, name.upper(), nargs) not in FORM_EXEMPT.get(getattr(fn, "name", ""), set()):
                 out.append((f"{name.upper()}/{nargs}", why, text))
         if types is not None:
@@ -179,7 +181,7 @@ def _sql_s1(program, res, dialect: sqlexpr.Dialect, rows, registered, tmeth):
                 res.fail("C05-S1", f"{dialect.module.name}:{model}", f"catalog:{op}:formatter",
                          f"{inst} resolves to a formatter entry `{unparse(info[1])}` that is not a function", dialect.module.relpath, 0)
             else:
-                probs = _template_vocab_problems(fn, dialect, vocab)
+                probs = _template_vocab_problems(fn, dialect, vocab, registered_override={k for k, v_ in registered.items() if v_ in facts.SQLITE_REGISTRATION_MEANING.get(k, set())} if model == "SQLiteModel" else None)
                 cavs = facts.SQL_TEMPLATE_CAVEATS.get((model, op))
                 if cavs is not None and not probs:
                     import re as _re
@@ -634,6 +636,40 @@ def _s7_coalesce_missing_only(program, res):
         res.ok("C05-S7", "Pandas coalesce fills missing cells only (no test that also flags infinities)")
 
 
+def pandas_logic_rule(program, res, rule="C05-S3"):
+    """`and` / `or` over truth values that may be missing: SQL and Polars compute three valued (Kleene) logic.  numpy.logical_and / logical_or
+    decide by Python truthiness of None (and propagate pandas' <NA>), which is neither commutative nor Kleene; the Pandas entries therefore have to
+    look at which operands are missing"""
+    pim = program.method("pandas_base", "PandasModelBase", "_populate_impl_map", inherited=False)
+    dicts = [n for n in ast.walk(pim.node) if isinstance(n, ast.Dict)]
+    impl = {k.value: v for k, v in zip(dicts[0].keys, dicts[0].values) if isinstance(k, ast.Constant)}
+    mod = program.module("pandas_base")
+    pb = program.cls("pandas_base", "PandasModelBase")
+    for op in ("and", "or"):
+        e = impl.get(op)
+        if e is None:
+            res.fail(rule, "pandas_base:PandasModelBase._populate_impl_map", f"pandas-logic:{op}:fallthrough",
+                     f"Pandas has no entry for `{op}`: it falls through to numpy.logical_{op}", "data_algebra/pandas_base.py", 0)
+            continue
+        # the function the entry goes through
+        target = None
+        for c in [e] + list(ast.walk(e)):
+            if isinstance(c, ast.Name) and c.id in mod.functions:
+                target = mod.functions[c.id].node
+            elif isinstance(c, ast.Attribute) and isinstance(c.value, ast.Name) and c.value.id == "self" and pb.find_method(c.attr) is not None:
+                target = pb.find_method(c.attr).node
+        body = target if target is not None else e
+        looks_at_missing = any(isinstance(c, ast.Call) and isinstance(c.func, ast.Attribute) and c.func.attr in ("isnull", "isna") for c in ast.walk(body))
+        bare_numpy = any(isinstance(c, ast.Attribute) and unparse(c) in ("numpy.logical_and", "numpy.logical_or") for c in ast.walk(body))
+        if looks_at_missing:
+            res.ok(rule, f"Pandas `{op}` decides from which operands are missing (three valued logic)")
+        else:
+            res.fail(rule, "pandas_base:PandasModelBase._populate_impl_map", f"pandas-logic:{op}:truthiness",
+                     f"Pandas binds `{op}` to {'numpy.logical_' + op if bare_numpy else unparse(e)[:40]} without looking at missing operands: on object columns `a {op} b` at (None, False) differs "
+                     f"from `b {op} a`, and on the nullable boolean dtype False and <NA> is <NA>; SQLite and Polars compute three valued logic in all nine combinations",
+                     "data_algebra/pandas_base.py", getattr(e, "lineno", 0))
+
+
 def masked_condition_rule(program, res, rule="C05-S8"):
     """numpy.where(cond, a, b) asks cond for the truth value of every entry; a pandas nullable column refuses that for its missing entries.
     The condition handed over by where / if_else therefore goes through a step that fills the missing entries first"""
@@ -764,6 +800,7 @@ def run(program, res, tier):
     res.rule("C05-S8", "Pandas: helpers that tell columns from scalars know every column type the implementations return")
     _s8_column_operand_kinds(program, res)
     masked_condition_rule(program, res)
+    pandas_logic_rule(program, res)
     res.rule("C05-S1", "every catalogued (method, backend) marked 'y' resolves to an implementation of the right meaning")
     res.rule("C05-S2", "three-valued truth tables of the SQL templates equal the documented null contracts")
     res.rule("C05-S3", "documented null contracts match the primitives each back end binds the method to")
